@@ -109,7 +109,7 @@ Section Laws.
     (** ** the user's own mutations: only a frame is needed (what they do to the
         entry they name is the base filesystem's business) *)
     law_user_create : forall w p, quiet w -> swf (V w) -> snolinkpar (V w) p -> snotlink (V w) p ->
-      exists r w', a_create a p w = (r, w') /\ framed (a_create a p) w [p] /\ (forall h, r = MOk h -> wh h p 0 \/ True);
+      framed (a_create a p) w [p];
     law_user_openfile : forall w p fl perm, quiet w -> swf (V w) -> snolinkpar (V w) p -> snotlink (V w) p -> framed (a_openfile a p fl perm) w [p];
     (** writing through / closing a handle the user obtained for [p] touches at most [p] *)
     law_user_handle : forall w p r w1, quiet w -> swf (V w) -> snolinkpar (V w) p -> snotlink (V w) p ->
